@@ -82,6 +82,7 @@ pub fn run(ctx: &mut Ctx) {
                     else { match encode_blp(&blp) { Ok(b) => (b, vec![]), Err(e) => { ctx.out.oracle(false, "encode-fails", &format!("{desc}: {e}")); continue; } } };
                 let parsed = if is0 { parse_blp_with_externals(&bytes, |i| preloaded_mipmaps(&ext, i)) } else { parse_blp(&bytes) };
                 let parsed = match parsed { Ok(p) => p, Err(e) => { ctx.out.oracle(false, "own-output-does-not-parse", &format!("{desc}: {e}")); continue; } };
+                header_cases(ctx, &bytes, &ext, is0);
                 let mut bad = false;
                 let fail = |ctx: &mut Ctx, tag: &str, what: String| { ctx.out.oracle(false, tag, &format!("{what} :: {desc}")); };
                 if parsed != blp { bad = true; fail(ctx, "parsed-structure-differs", format!("header {:?} vs {:?}; images {} vs {}", parsed.header, blp.header, parsed.image_count(), blp.image_count())); }
@@ -142,5 +143,49 @@ pub fn run(ctx: &mut Ctx) {
     for w in (1u32..=600).chain([1023, 1024, 1025, 4095, 4096, 8191, 8192, 16383, 16384, 32767, 32768, 65535]) {
         let h = BlpHeader { width: w, height: 1, flags: BlpFlags::Blp2 { compression: Compression::Raw3, alpha_bits: 8, alpha_type: AlphaType::None, has_mipmaps: 1 }, version: BlpVersion::Blp2, content: BlpContentTag::Direct, mipmap_locator: MipmapLocator::External };
         ctx.out.case(&format!("c16count {w} 1"), &h.mipmaps_count().to_string());
+    }
+}
+
+/// the header as Model.C16Header.show_ prints it
+fn header_view(h: &BlpHeader) -> String {
+    let ver = match h.version { BlpVersion::Blp0 => 0, BlpVersion::Blp1 => 1, BlpVersion::Blp2 => 2 };
+    let content: u32 = h.content.into();
+    let fl = match h.flags { BlpFlags::Old { alpha_bits, extra, has_mipmaps } => format!("old {alpha_bits} {extra} {has_mipmaps}"),
+        BlpFlags::Blp2 { compression, alpha_bits, alpha_type, has_mipmaps } => { let c: u8 = compression.into(); let a: u8 = alpha_type.into(); format!("blp2 {c} {alpha_bits} {a} {has_mipmaps}") } };
+    let loc = match h.mipmap_locator { MipmapLocator::Internal { offsets, sizes } => offsets.iter().chain(sizes.iter()).map(|x| x.to_string()).collect::<Vec<_>>().join(","), MipmapLocator::External => "ext".to_string() };
+    format!("ok {ver} {content} {fl} {} {} {loc}", h.width, h.height)
+}
+
+/// what parse_blp says about the HEADER of `bytes`: its fields, a header error class, or None when the header was accepted
+/// but the content behind it was not (the header's fields are then not observable)
+fn header_answer(bytes: &[u8], ext: &[Vec<u8>], is0: bool) -> Option<String> {
+    use wow_blp::parser::Error as E;
+    let b2 = bytes.to_vec(); let e2 = ext.to_vec();
+    let r = std::panic::catch_unwind(move || if is0 { parse_blp_with_externals(&b2, |i| preloaded_mipmaps(&e2, i)) } else { parse_blp(&b2) });
+    match r {
+        Err(_) => Some("panic".into()),
+        Ok(Ok(img)) => Some(header_view(&img.header)),
+        Ok(Err(E::Context(c, inner))) if c == "header" => { let mut e: &E = &inner; while let E::Context(_, i) = e { e = i; }
+            Some(match e { E::WrongMagic(_) => "err magic", E::Blp2UnknownCompression(_) => "err compression", E::UnknownAlphaType(_) | E::Blp2UnknownAlphaType(_) => "err alphatype", E::UnexpectedEof => "err eof", _ => "err other" }.to_string()) }
+        Ok(Err(_)) => None,
+    }
+}
+
+/// Model.C16Header against parse_blp: the encoder's header, every header byte replaced by boundary values, truncations
+fn header_cases(ctx: &mut Ctx, bytes: &[u8], ext: &[Vec<u8>], is0: bool) {
+    let hl = bytes.len().min(160);
+    if let Some(a) = header_answer(bytes, ext, is0) { ctx.out.case(&format!("c16hdr {}", hex(&bytes[..hl])), &a); ctx.out.stat("c16.hdr.intact"); }
+    if ctx.rng.below(3) != 0 && !ctx.thorough { return; }
+    for off in 0..28usize.min(hl) {
+        for v in [0u8, 1, 2, 3, 4, 7, 8, 9, 0x30, 0x32, 0x33, 0xFF] {
+            if bytes[off] == v || (ctx.rng.below(3) != 0 && !ctx.thorough) { continue; }
+            let mut m = bytes.to_vec(); m[off] = v;
+            match header_answer(&m, ext, is0) { Some(a) => { ctx.out.stat(&format!("c16.hdrmut.{}", a.split(' ').take(2).collect::<Vec<_>>().join("_").replace(|c: char| c.is_ascii_digit(), ""))); ctx.out.case(&format!("c16hdr {}", hex(&m[..hl])), &a); }
+                None => ctx.out.stat("c16.hdrmut.content_rejected") }
+        }
+    }
+    for cut in [0usize, 3, 4, 7, 8, 9, 11, 12, 19, 20, 27, 28, 100, 147, 148, 155, 156] {
+        if cut >= bytes.len() { continue; }
+        if let Some(a) = header_answer(&bytes[..cut], ext, is0) { if a.starts_with("err") { ctx.out.case(&format!("c16hdr {}", if cut == 0 { "-".to_string() } else { hex(&bytes[..cut]) }), &a); ctx.out.stat(&format!("c16.hdrcut.{}", a.replace(' ', "_"))); } }
     }
 }
